@@ -14,6 +14,7 @@ import io
 import logging
 import os
 import shutil
+import stat
 from contextlib import ContextDecorator, ExitStack
 from functools import lru_cache
 from pathlib import Path
@@ -82,6 +83,40 @@ class FilesystemIsolation(ContextDecorator):
             if p is not None:
                 self._created.discard(self._abspath(p))
 
+    def _is_isolated(self, abs_path: str) -> bool:
+        """Whether a path, or one of its ancestors, was created inside the isolation."""
+        tmp = self._tmp.name
+        if abs_path == tmp or abs_path.startswith(tmp + os.sep):
+            return True
+        current = abs_path
+        while True:
+            if current in self._created:
+                return True
+            parent = os.path.dirname(current)  # noqa: PTH120
+            if parent == current:
+                return False
+            current = parent
+
+    def _owns(self, path: os.PathLike | str | int | None) -> bool:
+        """Decide, before a call, whether its target may be recorded as created.
+
+        Only paths that do not exist yet, or that already live inside the isolation,
+        may be recorded; a path that existed before must survive the cleanup.
+        """
+        if path is None or isinstance(path, int):
+            return False
+        abs_path = self._abspath(path)
+        return not os.path.lexists(abs_path) or self._is_isolated(abs_path)
+
+    def _refuse_overwrite(self, path: os.PathLike | str | int | None) -> None:
+        """Refuse to write to (or replace) a pre-existing, non-isolated file or directory."""
+        if path is None or isinstance(path, int) or self._owns(path):
+            return
+        abs_path = self._abspath(path)
+        mode = os.lstat(abs_path).st_mode
+        if stat.S_ISREG(mode) or stat.S_ISDIR(mode) or stat.S_ISLNK(mode):
+            raise PermissionError(f"Attempted to modify non-isolated path: {abs_path}")
+
     @staticmethod
     def _is_write_mode(mode: str) -> bool:
         """Check if a mode is write mode."""
@@ -106,11 +141,21 @@ class FilesystemIsolation(ContextDecorator):
         record_arg_idx: int | None = None,
         record_dst_idx: int | None = None,
         forget_arg_idx: int | None = None,
+        replaces_dst: bool = False,
     ) -> Callable:
-        """Create a tracked wrapper that uses positional indices."""
+        """Create a tracked wrapper that uses positional indices.
+
+        ``replaces_dst`` marks functions that replace an existing destination
+        themselves (rename/replace); they are refused on non-isolated destinations.
+        """
 
         @functools.wraps(original_func)
         def tracked_method(*args, **kwargs):
+            if kwargs.get("dir_fd") is not None:
+                # A name relative to a directory descriptor (e.g. rmtree's internal calls,
+                # whose top-level path was checked already) cannot be resolved to a path.
+                return original_func(*args, **kwargs)
+
             forget_path = self._get_arg(args, kwargs, forget_arg_idx)
             if forget_path:
                 abs_forget = self._abspath(forget_path)
@@ -118,19 +163,25 @@ class FilesystemIsolation(ContextDecorator):
                 if abs_forget not in self._created:
                     raise PermissionError(f"Attempted to modify non-isolated path: {abs_forget}")
 
+            rec = self._get_arg(args, kwargs, record_arg_idx)
+            dst = self._get_arg(args, kwargs, record_dst_idx)
+            if replaces_dst:
+                self._refuse_overwrite(dst)
+            # decided before the call: afterwards a pre-existing path looks like a new one
+            owned = [p for p in (rec, dst) if self._owns(p)]
+
             res = original_func(*args, **kwargs)
 
-            try:
-                rec = self._get_arg(args, kwargs, record_arg_idx)
-                dst = self._get_arg(args, kwargs, record_dst_idx)
-                self._record_created(rec, dst)
-            except Exception:  # noqa: BLE001
-                _LOGGER.warning("Failed to update bookkeeping for %s", original_func)
-
+            # forget first: renaming a path onto itself must keep it recorded
             try:
                 self._forget(forget_path)
             except Exception:  # noqa: BLE001
                 _LOGGER.warning("Failed to forget path: %s", forget_path)
+
+            try:
+                self._record_created(*owned)
+            except Exception:  # noqa: BLE001
+                _LOGGER.warning("Failed to update bookkeeping for %s", original_func)
 
             return res
 
@@ -145,8 +196,12 @@ class FilesystemIsolation(ContextDecorator):
             # second positional arg may be mode, or kwargs['mode']
             file_arg = args[0] if args else kwargs.get("file")
             mode = kwargs.get("mode", args[1] if len(args) > 1 else "r")
-            f = original_func(*args, **kwargs)
+            owned = False
             if isinstance(mode, str) and self._is_write_mode(mode):
+                self._refuse_overwrite(file_arg)
+                owned = self._owns(file_arg)
+            f = original_func(*args, **kwargs)
+            if owned:
                 try:
                     self._record_created(file_arg)
                 except Exception:  # noqa: BLE001
@@ -164,16 +219,18 @@ class FilesystemIsolation(ContextDecorator):
             "O_CREAT",
             "O_TRUNC",
             "O_APPEND",
-            "O_TMPFILE",
-        ):
+        ):  # O_TMPFILE needs O_WRONLY/O_RDWR anyway, and its value contains O_DIRECTORY
             if hasattr(os, flag_name):
                 write_flags |= getattr(os, flag_name)
 
         @functools.wraps(original_func)
         def tracked_os_open(path, flags, *args, **kwargs):
-            should_record = bool(flags & write_flags)
+            owned = False
+            if flags & write_flags and kwargs.get("dir_fd") is None:
+                self._refuse_overwrite(path)
+                owned = self._owns(path)
             fd = original_func(path, flags, *args, **kwargs)
-            if should_record:
+            if owned:
                 try:
                     self._record_created(path)
                 except Exception:  # noqa: BLE001
@@ -190,10 +247,12 @@ class FilesystemIsolation(ContextDecorator):
             abs_path = self._abspath(path_self)
             if abs_path not in self._created:
                 raise PermissionError(f"Attempted to rename/replace non-isolated path: {abs_path}")
+            owned = self._owns(target)
             res = original_func(path_self, target)
             try:
                 self._forget(path_self)
-                self._record_created(res)
+                if owned:
+                    self._record_created(res)
             except Exception:  # noqa: BLE001
                 _LOGGER.warning(
                     "Failed to update bookkeeping for rename/replace: %s -> %s", path_self, target
@@ -207,8 +266,8 @@ class FilesystemIsolation(ContextDecorator):
         patches = {
             (os, "mkdir"): {"record_arg_idx": 0},
             (os, "makedirs"): {"record_arg_idx": 0},
-            (os, "rename"): {"forget_arg_idx": 0, "record_dst_idx": 1},
-            (os, "replace"): {"forget_arg_idx": 0, "record_dst_idx": 1},
+            (os, "rename"): {"forget_arg_idx": 0, "record_dst_idx": 1, "replaces_dst": True},
+            (os, "replace"): {"forget_arg_idx": 0, "record_dst_idx": 1, "replaces_dst": True},
             (shutil, "copyfile"): {"record_dst_idx": 1},
             (shutil, "copy"): {"record_dst_idx": 1},
             (shutil, "copy2"): {"record_dst_idx": 1},
